@@ -182,6 +182,28 @@ pub fn items(tier: Tier, id: &str) -> Vec<Item> {
             out.push(Item { cfgs: c.to_vec(), f32_too: false });
         }
     }
+    if id == "C17" || id == "C03" || id == "C04" {
+        // large chunks: positions of several thousand frames times a large oversampling factor,
+        // where arithmetic done in f32 instead of f64 loses the fractional position
+        let mut cfgs = Vec::new();
+        for kind in [Kind::SI, Kind::SO] {
+            for interp in Interp::ALL {
+                for ratio in [0.5, R_147_160, 1.2] {
+                    let mut c = Cfg::sinc(kind, ratio, 1.25, 4096, 16, 256, interp, Kernel::Dispatch);
+                    c.channels = 1;
+                    cfgs.push(c);
+                }
+            }
+        }
+        for kind in [Kind::FI, Kind::FO] {
+            for d in Degree::ALL {
+                cfgs.push(Cfg::fast(kind, R_147_160, 1.25, 4096, d));
+            }
+        }
+        for c in cfgs.chunks(4) {
+            out.push(Item { cfgs: c.to_vec(), f32_too: false });
+        }
+    }
     if id != "C06" {
         for g in fft_groups(tier) {
             out.push(Item { cfgs: g, f32_too: tier == Tier::Thorough });
@@ -206,7 +228,16 @@ pub fn spec_for(id: &str, tier: Tier, cfg: &Cfg) -> Spec {
     // layer offers the ratio/chunk/reset alphabet only
     let bound = if closing && cfg.chunk <= 8 { 2 } else { 1 };
     let alpha_deep = if q { Alpha::Ratio } else { alpha };
-    let horizon = if q { [48, 24, 12, 8] } else { [128, 32, 12, 8] };
+    let big = cfg.kind.is_async() && cfg.chunk >= 1024;
+    let horizon = if big {
+        [8, 4, 2, 2]
+    } else if q {
+        [48, 24, 12, 8]
+    } else {
+        [128, 32, 12, 8]
+    };
+    let alpha = if big { Alpha::Ratio } else { alpha };
+    let alpha_deep = if big { Alpha::Ratio } else { alpha_deep };
     let signal = if id == "C10" || id == "C17" {
         Signal::Noise
     } else if cfg.kind.is_sinc() && cfg.kernel != Kernel::Probe {
